@@ -307,6 +307,20 @@ impl Sim {
                 }
             }
         }
+        // the key index: a key never points at a connection that is authenticated under another key
+        for (k, i) in addr_after.iter() {
+            if let Some((true, Some(pk))) = after.get(i) {
+                if pk.to_vec() != *k {
+                    rep.violation(
+                        "C17|clause=key-index-points-at-connection-of-another-key",
+                        &format!("node {}: the key index maps {} to peer {}, which is Connected under {} (trace {:?})", node, hex::encode(&k[..4]), i, hex::encode(&pk[..4]), self.trace.iter().rev().take(12).collect::<Vec<_>>()),
+                        witness.clone(),
+                    );
+                    return false;
+                }
+            }
+        }
+        rep.count("key_index_checks");
         // a message that did not connect its own peer must not disturb the other connections
         let own_connected = after.get(&idx).map(|x| x.0).unwrap_or(false) && !before.get(&idx).map(|x| x.0).unwrap_or(false);
         for (p, st) in before.iter() {
@@ -382,6 +396,9 @@ impl Sim {
                 inj.push(Action::Inject(node, idx, Message::HandshakeChallenge(HandshakeChallenge { challenge: *ch }).serialize(), format!("challenge[known:{}]", hex::encode(&ch[..2]))));
             }
             inj.push(Action::Inject(node, idx, Message::HandshakeChallenge(HandshakeChallenge { challenge: [7; 32] }).serialize(), "challenge[fresh]".into()));
+            // (an honest node signs whatever it is challenged with: 32 zero bytes are what a
+            // missing challenge looks like to careless code)
+            inj.push(Action::Inject(node, idx, Message::HandshakeChallenge(HandshakeChallenge { challenge: [0; 32] }).serialize(), "challenge[zero]".into()));
             // responses signed by an attacker key over a known challenge, with variations
             for (ki, key) in self.attacker_keys.iter().enumerate() {
                 for ch in self.seen_challenges.iter().rev().take(3) {
@@ -491,6 +508,71 @@ impl Sim {
     }
 }
 
+/// the attacker runs a complete, honest-looking handshake with one of its own keys on the connection
+/// (node, idx): challenge, the node's response with its counter-challenge, the attacker's response
+async fn attacker_handshake(sim: &mut Sim, node: usize, idx: u64, key_i: usize, rep: &mut Report) -> bool {
+    let ch = Message::HandshakeChallenge(HandshakeChallenge { challenge: [7 + key_i as u8; 32] }).serialize();
+    if !sim.deliver(node, idx, ch, true, "challenge[fresh]", rep).await {
+        return false;
+    }
+    let counter = match sim.issued.get(&(node, idx)).and_then(|l| l.iter().rev().find(|i| !i.consumed)).map(|i| i.challenge) {
+        Some(c) => c,
+        None => return true,
+    };
+    let key = sim.attacker_keys[key_i].clone();
+    let resp = HandshakeResponse {
+        public_key: key.pk,
+        signature: sign(&counter, &key.sk),
+        is_lite: false,
+        block_fetch_url: "http://m.example:1".to_string(),
+        challenge: [9; 32],
+        services: vec![],
+        wallet_version: Version::new(0, 0, 1),
+        core_version: Version::new(0, 2, 11),
+    };
+    sim.deliver(node, idx, Message::HandshakeResponse(resp).serialize(), true, &format!("response[own-key{}]", key_i), rep).await
+}
+
+/// directed schedules the random exploration reaches only rarely
+async fn directed(rep: &mut Report) {
+    // 1. the response an honest node gives to an all-zero challenge, replayed as the first message
+    //    on a connection whose node has not issued any challenge yet
+    if let Some(mut sim) = Sim::new(rep).await {
+        rep.eval();
+        rep.count("runs.directed");
+        let zero = Message::HandshakeChallenge(HandshakeChallenge { challenge: [0; 32] }).serialize();
+        if sim.deliver(A, 11, zero, true, "challenge[zero]", rep).await {
+            let reply = sim.seen_msgs.iter().rev().find(|(l, b)| l.starts_with("from-n0p11") && matches!(Message::deserialize(b.clone()), Ok(Message::HandshakeResponse(_)))).map(|(_, b)| b.clone());
+            if let Some(bytes) = reply {
+                rep.count("directed.zero-challenge-responses-replayed");
+                for (node, idx) in [(B, 2u64), (B, 12), (B, 1)] {
+                    if !sim.deliver(node, idx, bytes.clone(), true, "replay[response-to-zero-challenge]", rep).await {
+                        break;
+                    }
+                }
+            }
+        }
+        rep.nontrivial(&format!("directed-zero|{:?}", sim.trace));
+    }
+    // 2. a static peer answers under one key, the connection breaks, the redialled address answers
+    //    under another key
+    if let Some(mut sim) = Sim::new(rep).await {
+        rep.eval();
+        rep.count("runs.directed");
+        if attacker_handshake(&mut sim, B, 2, 0, rep).await {
+            let first = sim.snapshot(B).await.0.get(&2).cloned();
+            if matches!(first, Some((true, _))) {
+                rep.count("directed.static-peer-authenticated-under-first-key");
+            }
+            if sim.apply(&Action::Break(3), rep).await && sim.apply(&Action::Redial(3), rep).await {
+                let _ = attacker_handshake(&mut sim, B, 2, 1, rep).await;
+                rep.count("directed.static-peer-redialled-and-answered-under-second-key");
+            }
+        }
+        rep.nontrivial(&format!("directed-rekey|{:?}", sim.trace));
+    }
+}
+
 async fn random_run(rng: &mut Rng, depth: usize, rep: &mut Report) {
     let mut sim = match Sim::new(rep).await {
         Some(s) => s,
@@ -580,6 +662,7 @@ pub async fn run(ctx: &Ctx, rep: &mut Report) {
             rep.violation("C17|clause=honest-handshake-does-not-complete", &format!("undisturbed handshake between two honest nodes did not end with both sides connected ({:?})", sim.trace), json!({"trace": sim.trace}));
         }
     }
+    directed(rep).await;
     let runs = ctx.scale(1_600, 16_000) / ctx.shards.max(1) + 1;
     for _ in 0..runs {
         random_run(&mut rng, ctx.scale(40, 60) as usize, rep).await;
